@@ -1192,6 +1192,22 @@ def p7_aug(block):
 
 
 # ------------------------------------------------------------------------------------------ driver
+def _bound_names(fn):
+    out = set()
+    for n in ast.walk(fn):
+        if isinstance(n, ast.Name) and isinstance(n.ctx, (ast.Store, ast.Del)):
+            out.add(n.id)
+        elif isinstance(n, ast.arg):
+            out.add(n.arg)
+        elif isinstance(n, (ast.FunctionDef, ast.AsyncFunctionDef, ast.ClassDef)) and n is not fn:
+            out.add(n.name)
+        elif isinstance(n, (ast.Import, ast.ImportFrom)):
+            out |= {(a.asname or a.name).split('.')[0] for a in n.names}
+        elif isinstance(n, ast.ExceptHandler) and n.name:
+            out.add(n.name)
+    return out
+
+
 ALL_L2 = frozenset({'GN', 'PN', 'W', 'IV1', 'RG1', 'C1', 'E1', 'S1', 'R1', 'U1', 'G1', 'P5', 'L1', 'F1', 'M1', 'II', 'B1', 'P3', 'P3B'})
 # second-stage passes that are switched on (see DESIGN.md section 3: a pass is enabled only when every rule has been
 # confirmed to be quiet on the reference tree with it and the seeded corpus is still detected)
@@ -1213,7 +1229,9 @@ def canon_function(fn_node, level=None, protocol=False, vocab=None):
     (alias inlining of arbitrary attribute chains, early-return nesting)."""
     fn = copy.deepcopy(fn_node)
     en = enabled_passes() if level is None else (ALL_L2 if level >= 2 else frozenset())
-    if vocab is not None:
+    if vocab is not None and not (vocab - _bound_names(fn)):
+        # (a function that lost a name of the reference vocabulary may have had a temporary *renamed*: the rules follow renamed
+        # temporaries through their definitions, so the function is left as written)
         # GN / PN: temporaries that the reference tree does not have in this function are substituted into their uses
         # first, so that every later pass and every rule sees the function in the vocabulary it was written against
         for _ in range(4):
